@@ -104,6 +104,9 @@ enum Step {
     Unknown,
     /// rules for n new, unrelated predicates are added to the knowledge base between two queries
     Grow { n: u32 },
+    /// a query on one of the same predicates is run against ANOTHER knowledge base that is alive in the same process
+    /// (same predicate names, a different number of clauses, facts only); mode 0 next_solution to the end, 1 solve, 2 solve_all
+    Foreign { other: bool, mode: u32 },
 }
 
 impl QueryProp {
@@ -115,7 +118,7 @@ impl QueryProp {
         let mut steps = vec![];
         for _ in 0..n {
             let other = chance(s, 1, 3);
-            steps.push(match weighted(s, &[3, 2, 2, 2, 2, 3, 1, 1]) {
+            steps.push(match weighted(s, &[3, 2, 2, 2, 2, 3, 1, 1, 2]) {
                 0 => Step::Partial { other, k: 1 + s.draw(3) },
                 1 => Step::Exhaust { other, reasks: 0 },
                 2 => Step::Exhaust { other, reasks: 1 + s.draw(2) },
@@ -123,7 +126,8 @@ impl QueryProp {
                 4 => Step::SolveAll { other },
                 5 => Step::CheapTimeout,
                 6 => Step::Unknown,
-                _ => Step::Grow { n: 1 + s.draw(24) },
+                7 => Step::Grow { n: 1 + s.draw(24) },
+                _ => Step::Foreign { other, mode: s.draw(3) },
             });
         }
         let final_mode = s.draw(3);
@@ -163,6 +167,14 @@ impl QueryProp {
         let r = guarded(budget, || -> Result<(Vec<String>, Vec<String>), CaseResult> {
             suiron::start_query();
             let mut kb = build_kb(&p.clauses);
+            // the other knowledge base: every predicate of the program, one more clause than in `kb`, facts only
+            let kb2 = if steps.iter().any(|x| matches!(x, Step::Foreign { .. })) {
+                let mut counts: Vec<((String, usize), usize)> = vec![];
+                for c in &p.clauses { let key = (c.name.clone(), c.args.len()); match counts.iter_mut().find(|(k, _)| *k == key) { Some(e) => e.1 += 1, None => counts.push((key, 1)) } }
+                let mut facts = vec![];
+                for ((name, ar), n) in counts { for i in 0..n + 1 { facts.push(Clause { name: name.clone(), args: (0..ar).map(|j| Term::atom(&format!("zz{}_{}", i, j))).collect(), body: None }); } }
+                Some(build_kb(&facts))
+            } else { None };
             let mut grown = 0u32;
             // baseline: the query as the first thing that happens
             let (b_strings, b_outs, b_tail, trunc) = enumerate(&kb, mk_query(&p.qname, &p.qargs), &p.qargs, limit);
@@ -203,6 +215,16 @@ impl QueryProp {
                     Step::Unknown => {
                         let sn = suiron::make_base_node(Rc::new(mk_query("no_such_predicate", &[Term::var("$Z")])), &kb);
                         let _ = suiron::next_solution(sn);
+                    }
+                    Step::Foreign { other, mode } => {
+                        let (g, _) = pick_q(*other);
+                        let kb2 = kb2.as_ref().unwrap();
+                        let sn = suiron::make_base_node(Rc::new(g), kb2);
+                        match mode {
+                            0 => { let mut n = 0; while suiron::next_solution(Rc::clone(&sn)).is_some() { n += 1; if n > 300 { break; } } }
+                            1 => { let _ = suiron::solve(Rc::clone(&sn)); }
+                            _ => { let _ = suiron::solve_all(sn); }
+                        }
                     }
                     Step::Grow { n } => {
                         // no query is live here (every node above has been dropped), so the knowledge base may be extended
@@ -270,6 +292,7 @@ impl QueryProp {
                 rep.class(&format!("final-mode:{}", ["next_solution", "solve", "solve_all"][final_mode as usize]));
                 if pause { rep.class("final-query-paused-1.1s-between-answers"); }
                 if steps.iter().any(|x| matches!(x, Step::Grow { .. })) { rep.class("history-adds-rules-to-the-knowledge-base"); }
+                if steps.iter().any(|x| matches!(x, Step::Foreign { .. })) { rep.class("history-queries-another-knowledge-base-with-the-same-predicates"); }
                 rep.class(if qstyle == 0 { "final-query:make_query" } else { "final-query:parse_query" });
                 if p.qargs.is_empty() { rep.class("final-query-has-no-arguments"); }
                 if steps.iter().any(|x| matches!(x, Step::Solve { .. })) { rep.class("history-contains-solve-calls"); }
@@ -286,6 +309,8 @@ impl QueryProp {
         // 0: nothing special; 1: the nodes given to solve_all / solve were made before another query timed out
         // (its timer fired and was cancelled, as solve() does); 2: the same, with the timeout after solve_all
         let stale = match s.draw(6) { 0 => 1, 1 => 2, _ => 0 };
+        // the mixed run at the end: this many solve() calls, then solve_all() on the same node for the rest
+        let mixed_j = 1 + s.draw(3) as usize;
         let feat = Features { cut: true, not: true, output: false, anon: true, alias_heavy: false };
         let (p, _) = gen_any_program(s, feat);
         let reference = solve_program(&p, Limits::default());
@@ -334,6 +359,22 @@ impl QueryProp {
             }
             let mut want2 = want.clone(); want2.push(NO_MORE.to_string());
             if norm(&got) != norm(&want2) { return Err(fail(self.id, "solve-wrong", format!("expected {:?}\nsolve gave {:?}", want2, got), case.clone())); }
+            // mixed: the first j answers one at a time with solve(), the rest with solve_all() on the same node
+            // (variable numbers in displayed unbound variables are not compared: the node is not the first one made)
+            let j = mixed_j.min(want.len());
+            if j > 0 {
+                let sn = suiron::make_base_node(Rc::new(mk_query(&p.qname, &p.qargs)), &kb);
+                let mut seq = vec![];
+                let t0 = Instant::now();
+                for _ in 0..j { seq.push(suiron::solve(Rc::clone(&sn))); }
+                seq.extend(suiron::solve_all(sn));
+                if seq.iter().any(|x| x == TIMEOUT_MSG) {
+                    if t0.elapsed() < Duration::from_millis(500) { return Err(fail(self.id, "false-timeout", format!("{} solve calls then solve_all reported a timeout after {:?}: {:?}", j, t0.elapsed(), seq), case.clone())); }
+                    return Err(CaseResult::Discard("fast query took > 0.5 s of wall time (machine overloaded): inconclusive".into()));
+                }
+                let strip = |v: &Vec<String>| -> Vec<String> { v.iter().map(|x| strip_var_numbers(x)).collect() };
+                if strip(&seq) != strip(&want) { return Err(fail(self.id, "solve-then-solve_all-wrong", format!("answers: {:?}\n{} solve calls followed by solve_all on the same node: {:?}", want, j, seq), case.clone())); }
+            }
             Ok(want.len())
         });
         match r {
